@@ -75,6 +75,10 @@ impl Clone for Waker {
         ensures r == *self,
     { unimplemented!() }
 }
+/// a closure literal that has no directive of its own: constructing it has no effect; its body is unverified code (listed in evidence)
+pub struct AnyClosure { pub _p: () }
+#[verifier::external_body]
+pub fn opaque_closure_value() -> AnyClosure { unimplemented!() }
 pub mod oneshot {
     pub struct Canceled;
 }
